@@ -50,6 +50,8 @@ class ExprMixin2:
                     return [(st, self.lit(self.repo.const(cls, name)))]
             if name == "__class__":
                 return [(st, V("clsof", t=self.as_ref(v, st), cls=cls))]
+            if (cls, name) in self.ext_attrs:
+                return [(st, self.ext_attrs[(cls, name)](self, st, v))]
             ft = self.field_type(cls, name) if cls else self.unique_field(name)
             if ft is None and cls and not cls.startswith("ast."):
                 if cls in ("list", "dict", "set", "tuple", "bytearray", "str", "bytes") or not self.repo.has_class(cls):
@@ -74,9 +76,13 @@ class ExprMixin2:
             return [(st, V(ty, t))]
         if k in ("str", "bytes", "seq", "tuple", "int", "const", "float", "iter", "gen", "exc"):
             return [(st, V("bound", xs=(v, name)))]
+        if k == "super":
+            return [(st, self.super_attr(v, name, st, node))]
         if k == "func" and name in ("__code__", "__name__"):
             return [(st, V("opaque", note=f"{v.cls}.{name}"))]
         if k == "builtin":
+            if (v.cls, name) in self.ext_attrs:
+                return [(st, self.ext_attrs[(v.cls, name)](self, st))]
             return [(st, V("builtin", cls=f"{v.cls}.{name}"))]
         raise Unsupported(f"{self.where(node)}: attribute .{name} of {v!r}")
 
@@ -91,6 +97,8 @@ class ExprMixin2:
         raise Unsupported(f"attribute .{name} on a value of unknown class is ambiguous between {sorted(roots)} ({tys})")
 
     def module_attr(self, mod, name, st, node):
+        if (mod, name) in self.ext_attrs:
+            return self.ext_attrs[(mod, name)](self, st)
         key = "module:" + mod
         ft = self.fields.get(key, {}).get(name)
         if ft is not None:
